@@ -478,7 +478,13 @@ class Visitor:
             node: The node to visit.
         """
         for name in node.names:
-            if not node.module and node.level == 1 and not name.asname and self.current.module.is_init_module:
+            if (
+                not node.module
+                and node.level == 1
+                and not name.asname
+                and self.current.is_module
+                and self.current.module.is_init_module
+            ):
                 # Special case: when being in `a/__init__.py` and doing `from . import b`,
                 # we are effectively creating a member `b` in `a` that is pointing to `a.b`
                 # -> cyclic alias! In that case, we just skip it, as both the member and module
